@@ -19,7 +19,53 @@ fn per_operator_json(r: &SupResult) -> serde_json::Value {
     serde_json::Value::Object(m)
 }
 
+/// Replay of an isolate-based violation: re-run exactly that (base, sub) input in a single worker.
+fn replay_isolated(ctx: &Ctx) -> Option<i32> {
+    let rp = ctx.replay.as_ref()?;
+    let t = std::fs::read_to_string(rp).ok()?;
+    let v: serde_json::Value = serde_json::from_str(&t).ok()?;
+    let ex = &v["extra"];
+    let (b, s) = (ex["base"].as_u64()?, ex["sub"].as_u64()?);
+    let mode = ex["mode"].as_str().unwrap_or("load").to_string();
+    let build = ex["build"].as_str().unwrap_or("checked");
+    let binp = match build {
+        "dev" => bin("ASEMON_BIN_DEV", "target/debug/asemon"),
+        "release" => bin("ASEMON_BIN_RELEASE", "target/release/asemon"),
+        _ => bin("ASEMON_BIN_CHECKED", "target/checked/asemon"),
+    };
+    let (bases, cap) = match ctx.prop.as_str() {
+        "C12" => (ctx.tier.pick(64u64, 1000u64), ctx.tier.pick(256 * 1024usize, 2 * 1024 * 1024usize)),
+        _ => (ctx.tier.pick(96u64, 1600u64), ctx.tier.pick(256 * 1024usize, 2 * 1024 * 1024usize)),
+    };
+    let gen_bases = if build == "dev" { (bases / 4).max(16) } else { bases };
+    let out = std::process::Command::new(&binp)
+        .arg("worker").arg("--mode").arg(&mode).arg("--seed").arg(ctx.seed.to_string()).arg("--tier").arg(ctx.tier.name())
+        .arg("--generated-bases").arg(gen_bases.to_string()).arg("--corpus").arg("1").arg("--size-cap").arg(cap.to_string())
+        .arg("--single").arg(format!("{}:{}", b, s)).arg("--as-limit-gib").arg(if mode == "mem" { "24" } else { "12" })
+        .output().ok()?;
+    let text = String::from_utf8_lossy(&out.stdout).to_string();
+    println!("[{}] replay of base {} sub {} in the {} build ({} mode):", ctx.prop, b, s, build, mode);
+    for l in text.lines() {
+        println!("  worker: {}", &l[..l.len().min(300)]);
+    }
+    let died = !out.status.success();
+    let viol = text.lines().any(|l| l.starts_with("V ")) || died;
+    if died {
+        println!("  worker died: {:?}; stderr tail: {}", out.status, String::from_utf8_lossy(&out.stderr).lines().rev().take(3).collect::<Vec<_>>().join(" | "));
+    }
+    if viol {
+        println!("VIOLATION property={} replay={}", ctx.prop, rp.display());
+        Some(1)
+    } else {
+        println!("[{}] replayed input no longer violates the property", ctx.prop);
+        Some(0)
+    }
+}
+
 pub fn run_c04(ctx: &Ctx) -> i32 {
+    if ctx.replay.is_some() {
+        return replay_isolated(ctx).unwrap_or(2);
+    }
     let bases = ctx.tier.pick(96u64, 1600u64);
     let cap = ctx.tier.pick(256 * 1024usize, 2 * 1024 * 1024usize);
     let mut total = Summary::default();
@@ -51,6 +97,9 @@ pub fn run_c04(ctx: &Ctx) -> i32 {
 }
 
 pub fn run_c05(ctx: &Ctx) -> i32 {
+    if ctx.replay.is_some() {
+        return replay_isolated(ctx).unwrap_or(2);
+    }
     let bases = ctx.tier.pick(96u64, 1600u64);
     let cap = ctx.tier.pick(256 * 1024usize, 2 * 1024 * 1024usize);
     let mut total = Summary::default();
@@ -87,6 +136,9 @@ pub fn run_c05(ctx: &Ctx) -> i32 {
 }
 
 pub fn run_c12(ctx: &Ctx) -> i32 {
+    if ctx.replay.is_some() {
+        return replay_isolated(ctx).unwrap_or(2);
+    }
     let bases = ctx.tier.pick(64u64, 1000u64);
     let cap = ctx.tier.pick(256 * 1024usize, 2 * 1024 * 1024usize);
     let mut total = Summary::default();
